@@ -407,6 +407,15 @@ theorem holds_imp_inWg {p : Prog} (hp : holdsWithinWg p = true) (q : Nat) (h : H
     · exact h'
   next => cases h
 
+/-- the cap, in the form used by the monitor-soundness proof. -/
+theorem sem_cap_aux {p : Prog} (hp : okProg p = true) {n : Nat} {s : St} (h : Reach p n s)
+    (l : List Tid) (hl : l.Nodup) (hin : ∀ t ∈ l, inCrit p s t = true) : l.length ≤ n := by
+  have hi := reach_inv hp h
+  have hc := reach_cap h
+  have := tracks_bound hi.tracks l hl (fun t ht => inCrit_holds hp (hin t ht))
+  have := hi.le_cap
+  omega
+
 /-! ### schedules as lists (to exhibit concrete reachable states) -/
 
 def runSched (p : Prog) (s : St) : List (Tid × Bool) → Option St
